@@ -21,6 +21,8 @@ pub enum Source {
     FamPresented(Family),
     /// ring ADFs R(n): members first + step*k (see mid.rs); sorting and fact order cycle with k
     Ring(usize, u64, u64),
+    /// T3(n), n <= 5: self-referential ternary conditions over (i, i+1, i+2); members first + step*k
+    Tern(usize, u64, u64),
     /// SP: large sparse ADFs (70 / 130 / 270 statements, 7 open ones at the highest positions), `count` instances
     Sparse(u64, u64),
 }
@@ -59,6 +61,13 @@ impl Source {
             Source::FamAllWriters(f) => format!("{} x all writer tuples", f.name),
             Source::Formulas(n, _) => n.clone(),
             Source::FamPresented(f) => format!("{} presented with permuted ac facts, reordering labels and sortings", f.name),
+            Source::Tern(n, first, step) => {
+                if *step == 1 {
+                    format!("T3({}): all ADFs with {} self-referential ternary conditions", n, n)
+                } else {
+                    format!("T3({}) class {} mod {}: self-referential ternary conditions", n, first, step)
+                }
+            }
             Source::Sparse(_, count) => format!("SP: {} large sparse ADFs (70/130/270 statements, open ring at positions beyond 63 / 255)", count),
             Source::Ring(n, first, step) => {
                 if *step == 1 {
@@ -73,7 +82,7 @@ impl Source {
         match self {
             Source::Fam(f) | Source::FamAllWriters(f) | Source::FamCompact(f) | Source::FamPresented(f) => f.n,
             Source::Formulas(..) => 2,
-            Source::Ring(n, _, _) => *n,
+            Source::Ring(n, _, _) | Source::Tern(n, _, _) => *n,
             Source::Sparse(..) => 270,
         }
     }
@@ -83,6 +92,14 @@ impl Source {
             Source::FamAllWriters(f) => f.size() * (WRITERS as u64).pow(f.n as u32),
             Source::Formulas(_, l) => l.len() as u64,
             Source::Sparse(_, count) => *count,
+            Source::Tern(n, first, step) => {
+                let raw = crate::mid::tern_size(*n);
+                if *first >= raw {
+                    0
+                } else {
+                    (raw - first + step - 1) / step
+                }
+            }
             Source::Ring(n, first, step) => {
                 let raw = crate::mid::ring_size(*n);
                 if *first >= raw {
@@ -141,6 +158,12 @@ impl Source {
                     }
                 }
                 Case { tts, text, fms, sorting: (k % 3) as usize, labels, formulas: None }
+            }
+            Source::Tern(n, first, step) => {
+                let fms = crate::mid::tern(*n, first + step * k);
+                let tts: Vec<TT> = fms.iter().map(|f| f.tt(*n)).collect();
+                let text = adf_text_fm(&fms, &names(*n));
+                Case { labels: names(*n), tts, text, fms, sorting: 0, formulas: None }
             }
             Source::Sparse(first, _) => {
                 let idx = first + k;
@@ -205,20 +228,29 @@ pub fn standard_sources(run: &Run, with_formulas: bool) -> Vec<Source> {
         v.push(Source::Formulas(name, std::sync::Arc::new(l)));
     }
     if run.tier == Tier::Quick {
-        v.push(Source::Fam(fam_s(run.seed)));
-        // one residue class modulo 128 of F(4,2) (four statements, conditions with up to two parents), compactly written
+        // one residue class modulo 128 of A(3) (index-derived writer tuples)
+        let mut a3 = fam_a(3);
+        a3.first = run.seed % 128;
+        a3.step = 128;
+        a3.name = format!("A(3) class {} mod 128", run.seed % 128);
+        v.push(Source::Fam(a3));
+        // one residue class modulo 256 of F(4,2) (four statements, conditions with up to two parents), compactly written
         let mut f42 = fam_f(4, 2);
-        f42.first = run.seed % 128;
-        f42.step = 128;
-        f42.name = format!("F(4,2) class {} mod 128", run.seed % 128);
+        f42.first = run.seed % 256;
+        f42.step = 256;
+        f42.name = format!("F(4,2) class {} mod 256", run.seed % 256);
         v.push(Source::FamCompact(f42));
         // mid-size: ring ADFs with 6 and 7 statements, one residue class each (complete in the thorough tier)
+        v.push(Source::Tern(4, 0, 1));
+        v.push(Source::Tern(5, run.seed % 4, 4));
         v.push(Source::Ring(6, run.seed % 16, 16));
         v.push(Source::Ring(7, run.seed % 512, 512));
         v.push(Source::Ring(8, run.seed % 16384, 16384));
         v.push(Source::Sparse(run.seed * 1000, 96));
     } else {
         v.push(Source::Sparse(run.seed * 1000, 960));
+        v.push(Source::Tern(4, 0, 1));
+        v.push(Source::Tern(5, 0, 1));
         v.push(Source::Ring(6, 0, 1));
         v.push(Source::Ring(7, run.seed % 16, 16));
         v.push(Source::Ring(8, run.seed % 512, 512));
